@@ -17,6 +17,7 @@ import (
 type resetter interface {
 	reset()
 	capture() func() // returns an action that puts the current value back
+	flag() bool      // booleans and integers: what lazy initialisation guards (zeroed by a first-use reset)
 }
 
 type reg struct {
@@ -30,7 +31,7 @@ func (r *reg) note(x resetter) {
 		r.known = true
 		vsync.RegisterReset(func() {
 			r.known = false
-			if r.restore != nil {
+			if r.restore != nil && !(vsync.FirstUse && x.flag()) {
 				r.restore()
 			} else {
 				x.reset()
@@ -42,6 +43,14 @@ func (r *reg) note(x resetter) {
 	}
 }
 
+type isFlag struct{}
+
+func (isFlag) flag() bool { return true }
+
+type isRef struct{}
+
+func (isRef) flag() bool { return false }
+
 type enabled struct{}
 
 //go:norace
@@ -51,6 +60,7 @@ func (enabled) EnabledFor(string) bool { return true }
 
 type Bool struct {
 	enabled
+	isFlag
 	v atomic.Bool
 	r reg
 }
@@ -70,6 +80,7 @@ func (b *Bool) CompareAndSwap(old, new bool) bool {
 
 type Int32 struct {
 	enabled
+	isFlag
 	v atomic.Int32
 	r reg
 }
@@ -90,6 +101,7 @@ func (x *Int32) CompareAndSwap(o, n int32) bool {
 
 type Int64 struct {
 	enabled
+	isFlag
 	v atomic.Int64
 	r reg
 }
@@ -110,6 +122,7 @@ func (x *Int64) CompareAndSwap(o, n int64) bool {
 
 type Uint32 struct {
 	enabled
+	isFlag
 	v atomic.Uint32
 	r reg
 }
@@ -134,6 +147,7 @@ func (x *Uint32) CompareAndSwap(o, n uint32) bool {
 
 type Uint64 struct {
 	enabled
+	isFlag
 	v atomic.Uint64
 	r reg
 }
@@ -158,6 +172,7 @@ func (x *Uint64) CompareAndSwap(o, n uint64) bool {
 
 type Pointer[T any] struct {
 	enabled
+	isRef
 	v atomic.Pointer[T]
 	r reg
 }
@@ -177,6 +192,7 @@ func (x *Pointer[T]) CompareAndSwap(o, n *T) bool {
 
 type Value struct {
 	enabled
+	isRef
 	v *atomic.Value
 	r reg
 }
